@@ -27,8 +27,10 @@
  *   rq <reallen> <hsz> <id> <tag>   RAW request: <reallen> bytes whose header says size=<hsz>, id=<id>,
  *                              written straight into the request ring (+ notification byte) or sent as
  *                              a datagram on the request socket, bypassing qb_ipcc_send's checks
- *   hs <spec>                  RAW handshake on a fresh stream socket (see do_handshake)
- *   hx <k>                     close raw handshake socket k
+ *   hs <spec>                  RAW handshake bytes on a (fresh) stream socket to the service (kinds: see below);
+ *                              logs "hb <k> <hex>" = the bytes raw peer k wrote (the model's input), then 3 server turns
+ *   hx <k> / hh <k>            raw peer k closes its socket / shuts down only its sending direction; 3 server turns
+ *   census                     resources the service holds (poll table entries, descriptors, /dev/shm entries, service refs)
  *   ctl                        a second, well-behaved client connects, sends one request, gets the
  *                              response (sent from msg_process) and disconnects: "is the server alive"
  * Message bytes: header id at 0, tag at 4 (padding), size field at 8, then byte i = pat(tag, i).
@@ -122,7 +124,20 @@ static int svc_counter = 0;
 static long mrets[64];
 static int n_mrets = 0, i_mrets = 0;
 static int in_ctl = 0;
+static int quiet_cb = 0;       /* teardown: the server may still deliver queued requests; not part of the script */
 static int n_accept = 0, n_created = 0, n_msgproc = 0;
+/* raw (hostile) handshake peers: server-side connection objects that came out of a raw handshake */
+#define RAWMAX 16
+static int rawfd[RAWMAX];
+static int nraw = 0;
+static int cur_raw = -1;                        /* raw peer whose bytes the server is looking at (hs/hh/hx ops) */
+static qb_ipcs_connection_t *raw_conn[RAWMAX];
+/* the first bytes each raw peer has written: the lab refuses to deliver a stream that would make the server allocate
+ * an absurd amount of shared memory (a valid request asking for more than LAB_MAX_REQ bytes per channel) */
+#define LAB_MAX_REQ (4u << 20)
+static unsigned char raw_head[RAWMAX][sizeof(struct qb_ipc_connection_request)];
+static size_t raw_headlen[RAWMAX];
+static int n_rcreated = 0, n_rclosed = 0, n_rdestroyed = 0;
 
 #define MAXTAG 65536
 static int tag_len[MAXTAG];       /* real length sent under each tag (harness bookkeeping for the content check) */
@@ -250,7 +265,15 @@ static int32_t cb_accept(qb_ipcs_connection_t *c, uid_t uid, gid_t gid)
 static void cb_created(qb_ipcs_connection_t *c)
 {
 	n_created++;
-	if (in_ctl) ctl_sconn = c; else sconn = c;
+	if (in_ctl) ctl_sconn = c;
+	else if (cur_raw >= 0 && cur_raw < RAWMAX) { raw_conn[cur_raw] = c; n_rcreated++; }
+	else sconn = c;
+}
+static int raw_index_of(qb_ipcs_connection_t *c)
+{
+	int i;
+	for (i = 0; i < RAWMAX; i++) if (raw_conn[i] == c) return i;
+	return -1;
 }
 static int32_t cb_msg(qb_ipcs_connection_t *c, void *data, size_t size)
 {
@@ -258,6 +281,11 @@ static int32_t cb_msg(qb_ipcs_connection_t *c, void *data, size_t size)
 	long real;
 	int32_t t32 = -1;
 	n_msgproc++;
+	if (raw_index_of(c) >= 0) {
+		/* a raw handshake peer never sends requests through the lab: any call here is reported */
+		printf("M-raw %zu\n", size);
+		return 0;
+	}
 	if (c == ctl_sconn) {
 		/* control client: answer from inside the callback, the usual libqb idiom */
 		struct qb_ipc_response_header rh;
@@ -269,20 +297,24 @@ static int32_t cb_msg(qb_ipcs_connection_t *c, void *data, size_t size)
 	/* never trust `size' when looking at the bytes: the real length is harness bookkeeping */
 	memcpy(&t32, (unsigned char *)data + 4, 4);
 	real = (t32 >= 0 && t32 < MAXTAG) ? tag_len[t32] : HDR;
+	/* content check over the bytes that are certainly there: a datagram is cut at the header's size field */
+	if (size < (size_t)real) real = (size < HDR) ? HDR : (long)size;
 	describe(data, real, d, sizeof d);
-	printf("M %zu %s\n", size, d);
+	if (!quiet_cb) printf("M %zu %s\n", size, d);
 	if (i_mrets < n_mrets) return (int32_t)mrets[i_mrets++];
 	return 0;
 }
 static int32_t cb_closed(qb_ipcs_connection_t *c)
 {
 	if (c == sconn) { sconn_closed = 1; printf("cb closed\n"); }
+	if (raw_index_of(c) >= 0) n_rclosed++;
 	return 0;
 }
 static void cb_destroyed(qb_ipcs_connection_t *c)
 {
 	if (c == sconn) { sconn_destroyed = 1; printf("cb destroyed\n"); }
 	if (c == ctl_sconn) ctl_sconn = NULL;
+	if (raw_index_of(c) >= 0) { n_rdestroyed++; raw_conn[raw_index_of(c)] = NULL; }
 }
 
 /* ------------------------------------------------------------------ turns */
@@ -294,7 +326,11 @@ static int conn_fd_of_sconn(void)
 }
 
 /* one pass over a snapshot of the table; returns number of dispatch calls; *rev_conn = revents given to the
- * connection's own descriptor (0 when not called) */
+ * connection's own descriptor (0 when not called).
+ * turn_mode: T_ALL every registered descriptor; T_MAIN only those of the scripted client's connection (op "t");
+ * T_OTHERS everything except those (raw handshake ops, "ctl"): so that each op drives only what it is about. */
+enum { T_ALL, T_MAIN, T_OTHERS };
+static int turn_mode = T_ALL;
 static int server_turn(int *rev_conn)
 {
 	struct dent snap[MAXD];
@@ -308,6 +344,10 @@ static int server_turn(int *rev_conn)
 		if (!snap[i].live) continue;
 		/* still registered with the same callback? (an earlier callback of this turn may have deleted it) */
 		if (!dtab[i].live || dtab[i].fd != snap[i].fd || dtab[i].fn != snap[i].fn) continue;
+		if (turn_mode != T_ALL && sconn && !sconn_destroyed) {
+			int is_main = (dtab[i].data == (void *)sconn);
+			if ((turn_mode == T_MAIN) != is_main) continue;
+		}
 		p.fd = snap[i].fd; p.events = (short)dtab[i].events; p.revents = 0;
 		if (poll(&p, 1, 0) <= 0 || p.revents == 0) continue;
 		if (rev_conn && snap[i].fd == cfd) *rev_conn = p.revents;
@@ -325,6 +365,16 @@ static int server_turn(int *rev_conn)
 		j.fn(j.data);
 	}
 	return calls;
+}
+
+/* raw handshake ops: give the server turns until nothing is ready any more (at most QUIESCE_MAX) */
+#define QUIESCE_MAX 200
+static void quiesce_others(void)
+{
+	int n = 0;
+	turn_mode = T_OTHERS;
+	while (n++ < QUIESCE_MAX && server_turn(NULL) > 0) ;
+	turn_mode = T_ALL;
 }
 
 static int fd_readable(int fd)
@@ -387,16 +437,14 @@ static int count_shm(void)
 	return n;
 }
 
-#define RAWMAX 16
-static int rawfd[RAWMAX];
-static int nraw = 0;
-
 static void teardown(void)
 {
 	int i, guard;
 	env_log = 0;
+	quiet_cb = 1;
 	for (i = 0; i < nraw; i++) if (rawfd[i] >= 0) { close(rawfd[i]); rawfd[i] = -1; }
 	nraw = 0;
+	cur_raw = -1;
 	if (cli) {
 		qb_ipcc_disconnect(cli);
 		cli = NULL;
@@ -408,11 +456,13 @@ static void teardown(void)
 		for (guard = 0; guard < 2 && njobs > 0; guard++) server_turn(NULL);
 	}
 	sconn = NULL; ctl_sconn = NULL;
+	memset(raw_conn, 0, sizeof raw_conn);
 	sconn_closed = sconn_destroyed = 0;
 	ndent = 0; njobs = 0;
 	memset(inj_left, 0, sizeof inj_left);
 	n_mrets = i_mrets = 0;
 	negotiated = 0;
+	quiet_cb = 0;
 }
 
 static int fds_at_start = -1;
@@ -469,10 +519,11 @@ static int do_ctl(void)
 	int before = n_created;
 	if (!svc) return 0;
 	in_ctl = 1;
+	turn_mode = T_OTHERS;
 	c2 = qb_ipcc_connect_async(svc_name, 8192, &cfd);
-	if (!c2) { in_ctl = 0; return 0; }
+	if (!c2) { in_ctl = 0; turn_mode = T_ALL; return 0; }
 	for (guard = 0; guard < 6 && n_created == before; guard++) server_turn(NULL);
-	if (qb_ipcc_connect_continue(c2) != 0) { in_ctl = 0; return 0; }
+	if (qb_ipcc_connect_continue(c2) != 0) { in_ctl = 0; turn_mode = T_ALL; return 0; }
 	memset(&rq, 0, sizeof rq);
 	rq.id = 5; rq.size = sizeof rq;
 	r = qb_ipcc_send(c2, &rq, sizeof rq);
@@ -486,6 +537,7 @@ static int do_ctl(void)
 	qb_ipcc_disconnect(c2);
 	for (guard = 0; guard < 4; guard++) server_turn(NULL);
 	in_ctl = 0;
+	turn_mode = T_ALL;
 	return ok;
 }
 
@@ -496,8 +548,9 @@ static int do_ctl(void)
  *   hs z <hsz> <max>      valid, but hdr.size = <hsz>
  *   hs g <n> <seed>       n garbage bytes
  *   hs x <n> <seed>       a valid request followed by n garbage bytes
- *   hs a <k> <n> <seed>   append n more bytes to raw socket k (dribble); bytes continue the valid request
- *                         from offset <seed> (so p + a... can rebuild a valid one slowly)
+ *   hs a <k> <n> <off>    append n more bytes to raw socket k (dribble); bytes continue the valid request
+ *                         from offset <off> (so p + a... can rebuild a valid one slowly)
+ *   hs b <k> <n> <seed>   append n garbage bytes to raw socket k
  *   hs n                  connect and send nothing
  */
 static int raw_connect(void)
@@ -626,49 +679,88 @@ int main(void)
 		if (!strcmp(op, "hs")) {
 			const char *kind = NEXT(&p);
 			struct qb_ipc_connection_request rq;
-			unsigned char bytes[4096];
+			unsigned char bytes[4096 + 64];
 			long n = 0, k = -1, i;
-			int before_acc = n_accept, before_msg = n_msgproc;
+			int b_acc = n_accept, b_msg = n_msgproc, b_cr = n_rcreated, b_cl = n_rclosed, b_de = n_rdestroyed;
 			memset(&rq, 0, sizeof rq);
 			rq.hdr.id = QB_IPC_MSG_AUTHENTICATE;
 			rq.hdr.size = sizeof rq;
 			if (!kind || !svc) { printf("op hs ?\nr -1\n"); continue; }
 			printf("op hs %s", kind);
 			if (kind[0] == 'v') { rq.max_msg_size = (uint32_t)NUM(&p, 8192); memcpy(bytes, &rq, sizeof rq); n = sizeof rq; printf(" %u", rq.max_msg_size); }
-			else if (kind[0] == 'p') { n = NUM(&p, 1); rq.max_msg_size = (uint32_t)NUM(&p, 8192); memcpy(bytes, &rq, sizeof rq); if (n > (long)sizeof rq) n = sizeof rq; printf(" %ld %u", n, rq.max_msg_size); }
+			else if (kind[0] == 'p') { n = NUM(&p, 1); rq.max_msg_size = (uint32_t)NUM(&p, 8192); memcpy(bytes, &rq, sizeof rq); if (n > (long)sizeof rq) n = sizeof rq; if (n < 0) n = 0; printf(" %ld %u", n, rq.max_msg_size); }
 			else if (kind[0] == 'i') { rq.hdr.id = (int32_t)NUM(&p, 0); rq.max_msg_size = (uint32_t)NUM(&p, 8192); memcpy(bytes, &rq, sizeof rq); n = sizeof rq; printf(" %d %u", rq.hdr.id, rq.max_msg_size); }
 			else if (kind[0] == 'z') { rq.hdr.size = (int32_t)NUM(&p, 0); rq.max_msg_size = (uint32_t)NUM(&p, 8192); memcpy(bytes, &rq, sizeof rq); n = sizeof rq; printf(" %d %u", rq.hdr.size, rq.max_msg_size); }
-			else if (kind[0] == 'g') { long seed; n = NUM(&p, 1); seed = NUM(&p, 1); if (n > 4096) n = 4096; for (i = 0; i < n; i++) bytes[i] = pat(seed, i); printf(" %ld %ld", n, seed); }
-			else if (kind[0] == 'x') { long seed, extra = NUM(&p, 1); seed = NUM(&p, 1); rq.max_msg_size = 8192; memcpy(bytes, &rq, sizeof rq); if (extra > 4000) extra = 4000; for (i = 0; i < extra; i++) bytes[sizeof rq + i] = pat(seed, i); n = sizeof rq + extra; printf(" %ld %ld", extra, seed); }
-			else if (kind[0] == 'a') { long off; k = NUM(&p, 0); n = NUM(&p, 1); off = NUM(&p, 0); rq.max_msg_size = 8192; memcpy(bytes, &rq, sizeof rq); if (off < 0) off = 0; if (off > (long)sizeof rq) off = sizeof rq; if (n > (long)sizeof rq - off) n = sizeof rq - off; memmove(bytes, bytes + off, n); printf(" %ld %ld %ld", k, n, off); }
+			else if (kind[0] == 'g') { long seed; n = NUM(&p, 1); seed = NUM(&p, 1); if (n > 4096) n = 4096; if (n < 0) n = 0; for (i = 0; i < n; i++) bytes[i] = pat(seed, i); printf(" %ld %ld", n, seed); }
+			else if (kind[0] == 'x') { long seed, extra = NUM(&p, 1); seed = NUM(&p, 1); rq.max_msg_size = 8192; memcpy(bytes, &rq, sizeof rq); if (extra > 4000) extra = 4000; if (extra < 0) extra = 0; for (i = 0; i < extra; i++) bytes[sizeof rq + i] = pat(seed, i); n = sizeof rq + extra; printf(" %ld %ld", extra, seed); }
+			else if (kind[0] == 'a') { long off; k = NUM(&p, 0); n = NUM(&p, 1); off = NUM(&p, 0); rq.max_msg_size = 8192; memcpy(bytes, &rq, sizeof rq); if (off < 0) off = 0; if (off > (long)sizeof rq) off = sizeof rq; if (n > (long)sizeof rq - off) n = sizeof rq - off; if (n < 0) n = 0; memmove(bytes, bytes + off, n); printf(" %ld %ld %ld", k, n, off); }
+			else if (kind[0] == 'b') { long seed; k = NUM(&p, 0); n = NUM(&p, 1); seed = NUM(&p, 1); if (n > 4096) n = 4096; if (n < 0) n = 0; for (i = 0; i < n; i++) bytes[i] = pat(seed, i); printf(" %ld %ld %ld", k, n, seed); }
 			else { n = 0; }
 			printf("\n");
-			if (kind[0] != 'a') {
-				int fd = raw_connect();
-				if (fd < 0 || nraw >= RAWMAX) { printf("r %d\n", fd); continue; }
+			if (kind[0] != 'a' && kind[0] != 'b') {
+				int fd = (nraw < RAWMAX) ? raw_connect() : -ENFILE;
+				if (fd < 0) { printf("r %d\n", fd); continue; }
 				k = nraw;
+				raw_headlen[k] = 0;
 				rawfd[nraw++] = fd;
 			}
 			if (k < 0 || k >= nraw || rawfd[k] < 0) { printf("r -9\n"); continue; }
-			if (n > 0) (void)!write(rawfd[k], bytes, n);
-			for (i = 0; i < 3; i++) server_turn(NULL);
-			printf("r %ld sock=%ld accept=%d msgproc=%d\n", k, raw_status((int)k) < 0 ? -1L : (raw_status((int)k) > 0 ? 1L : 0L),
-			       n_accept - before_acc, n_msgproc - before_msg);
+			{
+				unsigned char head[sizeof rq];
+				size_t hl = raw_headlen[k], j;
+				struct qb_ipc_connection_request q;
+				memcpy(head, raw_head[k], hl);
+				for (j = 0; j < (size_t)n && hl < sizeof head; j++) head[hl++] = bytes[j];
+				if (hl == sizeof head) {
+					memcpy(&q, head, sizeof q);
+					if (q.hdr.id == QB_IPC_MSG_AUTHENTICATE && q.max_msg_size > LAB_MAX_REQ && raw_headlen[k] < sizeof head) {
+						printf("r -7\n");      /* refused by the lab, nothing written */
+						continue;
+					}
+				}
+				memcpy(raw_head[k], head, hl);
+				raw_headlen[k] = hl;
+			}
+			/* the bytes the raw peer writes: input of the model */
+			printf("hb %ld ", k);
+			for (i = 0; i < n; i++) printf("%02x", bytes[i]);
+			printf("\n");
+			if (n > 0) {
+				ssize_t w = write(rawfd[k], bytes, n);
+				if (w != n) printf("hbshort %zd\n", w);    /* the server closed its end already (EPIPE) */
+			}
+			cur_raw = (int)k;
+			quiesce_others();
+			cur_raw = -1;
+			printf("r %ld sock=%ld accept=%d msgproc=%d created=%d closed=%d destroyed=%d\n", k,
+			       raw_status((int)k) < 0 ? -1L : (raw_status((int)k) > 0 ? 1L : 0L),
+			       n_accept - b_acc, n_msgproc - b_msg, n_rcreated - b_cr, n_rclosed - b_cl, n_rdestroyed - b_de);
 			continue;
 		}
-		if (!strcmp(op, "hx")) {
+		if (!strcmp(op, "hx") || !strcmp(op, "hh")) {
+			/* hx k: the raw peer closes its socket; hh k: it only shuts down its sending direction */
 			long k = NUM(&p, 0), i;
-			printf("op hx %ld\n", k);
-			if (k >= 0 && k < nraw && rawfd[k] >= 0) { close(rawfd[k]); rawfd[k] = -1; }
-			for (i = 0; i < 3; i++) server_turn(NULL);
-			printf("r 0\n");
+			int b_msg = n_msgproc, b_cl = n_rclosed, b_de = n_rdestroyed;
+			printf("op %s %ld\n", op, k);
+			if (k < 0 || k >= nraw || rawfd[k] < 0) { printf("r -9\n"); continue; }
+			if (op[1] == 'x') { close(rawfd[k]); rawfd[k] = -1; }
+			else shutdown(rawfd[k], SHUT_WR);
+			cur_raw = (int)k;
+			quiesce_others();
+			cur_raw = -1;
+			printf("r %ld sock=%ld msgproc=%d closed=%d destroyed=%d\n", k,
+			       op[1] == 'x' ? -2L : (raw_status((int)k) < 0 ? -1L : (raw_status((int)k) > 0 ? 1L : 0L)),
+			       n_msgproc - b_msg, n_rclosed - b_cl, n_rdestroyed - b_de);
 			continue;
 		}
 		if (!strcmp(op, "census")) {
-			/* descriptors registered in the table / open in the process, relative to an idle service */
-			int live = 0, i;
+			/* what the service holds: descriptors registered in the poll table, open descriptors of the process
+			 * (minus the raw peers' own ends), connection directories under /dev/shm, references to the service */
+			int live = 0, i, mine = 0;
 			for (i = 0; i < ndent; i++) if (dtab[i].live) live++;
-			printf("op census\nr table=%d fds_delta=%d shm=%d\n", live, count_fds() - fds_at_start, count_shm());
+			for (i = 0; i < nraw; i++) if (rawfd[i] >= 0) mine++;
+			printf("op census\nr table=%d fds=%d shm=%d ref=%d\n", live, count_fds() - fds_at_start - mine, count_shm(),
+			       svc ? (int)((struct qb_ipcs_service *)svc)->ref_count : 0);
 			continue;
 		}
 		if (!strcmp(op, "ctl")) {
@@ -762,7 +854,9 @@ int main(void)
 		if (!strcmp(op, "t")) {
 			int rev = 0, calls;
 			printf("op t\n");
+			turn_mode = T_MAIN;
 			calls = server_turn(&rev);
+			turn_mode = T_ALL;
 			(void)calls;
 			printf("r %d\n", rev);
 			print_state();
